@@ -7,6 +7,7 @@ use crate::monitors::gap::GapMonitor;
 use crate::monitors::handover::HandoverMonitor;
 use crate::monitors::dp::{dp_apps, BringupMonitor, CycleMonitor, FcbMonitor, ImageMonitor, LivenessMonitor};
 use crate::monitors::ring::RingMonitor;
+use crate::monitors::scan::ScanMonitor;
 use crate::monitors::total::TotalMonitor;
 use crate::rng::Fnv;
 use crate::scenario::*;
@@ -57,6 +58,9 @@ pub fn build_monitors(sc: &Scenario, w: &World) -> Vec<Box<dyn Monitor>> {
         }
         "C02" => {
             m.push(Box::new(RingMonitor::new("C02", w, o.quiet_from_us, o.bound_us, o.stable_us, false)));
+        }
+        "C18" => {
+            m.push(Box::new(ScanMonitor::new("C18", w, o.quiet_from_us)));
         }
         "C05" => {
             m.push(Box::new(TotalMonitor::new("C05")));
@@ -113,6 +117,9 @@ pub fn nontrivial(check: &str, s: &Stats) -> bool {
     match check {
         "C01" => s.get("access.tokens") >= 20 && s.get("access.distinct_token_senders") >= 2,
         "C02" => s.get("ring.converged") >= 1 && s.get("ring.tokens_in_stable") >= 10,
+        "C18" => s.get("scan.verdicts") >= 1 && s.get("scan.found_events") >= 1,
+        "C10" => s.get("decoder.buffers_evaluated") >= 3,
+        "C16" => s.get("stream.receive_calls") >= 3,
         "C05" => s.get("total.polls_returned") >= 200 && (faults_fired(s) >= 1 || s.get("adv.sent") >= 5),
         "C06" => s.get("ring.converged") >= 1 && faults_fired(s) >= 1,
         "C11" => s.get("handover.accepted_from_predecessor") + s.get("probe.token_accepted_from_new_predecessor_on_second_offer") >= 2 && s.get("handover.claims") >= 1,
@@ -137,6 +144,9 @@ pub fn run_scenario(sc: &Scenario, verbose: bool) -> RunResult {
 }
 
 pub fn run_scenario_full(sc: &Scenario, verbose: bool) -> (RunResult, Vec<(usize, FaultKind)>) {
+    if let Some(rx) = &sc.rx {
+        return (crate::rx::run_rx(sc, rx), Vec::new());
+    }
     let t0 = std::time::Instant::now();
     crate::logger::configure(sc.world.log_all);
     let mut w = World::new(sc);
@@ -223,6 +233,9 @@ pub fn default_runs(check: &str, tier: Tier) -> u64 {
         "C06" => (1500, 30_000),
         "C11" | "C12" => (3000, 60_000),
         "C05" => (4000, 200_000),
+        "C18" => (1500, 40_000),
+        "C10" => (60_000, 3_000_000),
+        "C16" => (30_000, 1_500_000),
         "C13" | "C15" => (1500, 30_000),
         "C07" => (2500, 80_000),
         _ => (1000, 20_000),
@@ -240,6 +253,9 @@ pub fn hang_is_violation(check: &str) -> bool {
 pub fn probe_names(check: &str) -> Vec<&'static str> {
     match check {
         "C01" | "C02" => vec!["probe.more_than_one_telegram_in_buffer", "probe.self_offline_address_collision"],
+        "C18" => vec!["probe.more_than_one_telegram_in_buffer"],
+        "C10" => vec!["probe.late_rejection", "probe.delimiter_substitution_decodes_differently", "probe.more_than_one_telegram_in_buffer"],
+        "C16" => vec!["probe.is_last_telegram_false_delivered", "probe.more_than_one_telegram_in_buffer", "probe.clean_telegram_after_discard_delivered"],
         "C05" => vec!["probe.more_than_one_telegram_in_buffer", "probe.self_offline_address_collision"],
         "C11" => vec!["probe.token_accepted_from_new_predecessor_on_second_offer", "probe.second_pass_attempt", "probe.third_pass_attempt", "probe.successor_removed", "probe.token_passed_to_self"],
         "C12" => vec!["probe.gap_poll_discovered_a_master", "probe.status_reply_not_ready", "probe.status_reply_ready", "probe.status_reply_in_ring"],
@@ -259,6 +275,9 @@ pub fn rule_of(check: &str) -> String {
     let nt = match check {
         "C01" => "Non-trivial = at least 20 token telegrams were sent by at least 2 different real stations (a ring existed and circulated).",
         "C02" => "Non-trivial = agreement was reached and at least 10 token passes were checked for order during the stability window.",
+        "C18" => "Non-trivial = at least one Found/Discovered event was checked and the convergence verdict (two complete sweeps after the population went quiet) was reached.",
+        "C10" => "One case = one sequence of isolated frames (valid, single-bit / single-byte damaged, truncated, noise, concatenated) sent over a byte-timed link to a receiver polled at random instants; distinct = distinct (first byte, length, damage kind) sequence and chunk mode. Non-trivial = the real decoder was evaluated against R1 on at least 3 buffers.",
+        "C16" => "One case = one sequence of valid telegrams x chunking x poll instants x helper choice per poll; distinct as for C10. Non-trivial = at least 3 receive_data calls of the helpers were judged.",
         "C05" => "Non-trivial = at least 200 polls returned and at least one injected fault fired or the adversary sent at least 5 telegrams.",
         "C11" => "Non-trivial = the station claimed the token at least once and accepted a token from another station at least twice.",
         "C12" => "Non-trivial = at least 10 GAP polls were judged and at least one status reply of a real station or one complete wait between sweeps was checked.",
@@ -276,6 +295,12 @@ pub fn rule_of(check: &str) -> String {
 }
 
 pub fn components(check: &str) -> serde_json::Value {
+    if matches!(check, "C10" | "C16") {
+        return serde_json::json!({
+            "real_code": ["profirust::fdl::Telegram::deserialize / DataTelegram::deserialize / TokenTelegram::deserialize", "provided methods of profirust::phy::ProfibusPhy: receive_telegram, receive_all_telegrams, poll_pending_received_bytes", "profirust::phy::SimulatorPhy (C16, part of the runs)"],
+            "stubs": ["sender process and byte-timed link (exact / burst / whole-frame delivery)", "queue PHY implementing ProfibusPhy::receive_data", "damage injector (bit flips, byte substitution, truncation, noise, concatenation)", "poll scheduler"]
+        });
+    }
     if matches!(check, "C03" | "C04" | "C07" | "C08" | "C14") {
         return serde_json::json!({
             "real_code": ["profirust::dp::DpMaster, Peripheral, PeripheralSet, ExtendedDiagnostics", "profirust::fdl::FdlActiveStation (token handling, reply admission, slot supervision)", "profirust::fdl telegram encode/decode", "provided methods of profirust::phy::ProfibusPhy", "profirust::fdl::ParametersBuilder (watchdog factors)", "LiveList / DpScanner when attached as second application"],
